@@ -44,6 +44,8 @@ Definition check_case (c : case) : N :=
            | Ok b, 0%nat => if bytes_eqb (prefix ++ b) out then 0 else 1
            | Err _, 1%nat => 0
            | Panic, 2%nat => 0
+           | Panic, _ => 2
+           | _, 2%nat => 12      (* the implementation panicked where the modelled code returns *)
            | _, _ => 2
            end
   | CParse params input cls tree =>
@@ -58,6 +60,8 @@ Definition check_case (c : case) : N :=
       | Ok b, 0%nat => if bytes_eqb b out then 0 else 5
       | Err _, 1%nat => 0
       | Panic, 2%nat => 0
+      | Panic, _ => 6
+      | _, 2%nat => 12
       | _, _ => 6
       end
   end)%N.
